@@ -14,7 +14,7 @@ namespace Schc
 structure Header where
   length : Nat
   fields : List Field
-  deriving Repr, Inhabited
+  deriving DecidableEq, Repr, Inhabited
 
 abbrev Layout := List (String × Nat × Option Nat × Nat)
 
@@ -49,53 +49,68 @@ def bump (ps : List (String × Nat)) (k : String) : List (String × Nat) × Nat 
 
 def natToString (n : Nat) : String := toString n
 
+/-- what one option occupies: the slices the loop body cuts (pure; no occurrence counters) -/
+structure OptHdr where
+  delta : ABuf
+  len : ABuf
+  d13 : Bool
+  d14 : Bool
+  l13 : Bool
+  l14 : Bool
+  /-- width of the extended delta / length fields (0, 8 or 16) -/
+  dw : Nat
+  lw : Nat
+  deltaExt : ABuf
+  lenExt : ABuf
+  vlen : Nat
+  value : ABuf
+  /-- `option_offset` after the value -/
+  off : Nat
+
+def optionHeader (ob : ABuf) : OptHdr :=
+  let delta := ob.slice 0 4
+  let len := ob.slice 4 8
+  let d13 := delta.content == Gen.coap_OPTION_DELTA_EXTENDED_8BITS
+  let d14 := delta.content == Gen.coap_OPTION_DELTA_EXTENDED_16BITS
+  let l13 := len.content == Gen.coap_OPTION_DELTA_EXTENDED_8BITS
+  let l14 := len.content == Gen.coap_OPTION_DELTA_EXTENDED_16BITS
+  let dw := if d13 then 8 else if d14 then 16 else 0
+  let lw := if l13 then 8 else if l14 then 16 else 0
+  let deltaExt := ob.slice 8 (8 + dw)
+  let lenExt := ob.slice (8 + dw) (8 + dw + lw)
+  let lenExtInt := if l13 then lenExt.value else if l14 then lenExt.value + 255 else 0
+  let vlen := (len.value + lenExtInt) * 8
+  let value := if vlen > 0 then ob.slice (8 + dw + lw) (8 + dw + lw + vlen) else ABuf.empty .left
+  ⟨delta, len, d13, d14, l13, l14, dw, lw, deltaExt, lenExt, vlen, value, 8 + dw + lw + vlen⟩
+
+def bumpIf (c : Bool) (ps : List (String × Nat)) (k : String) : List (String × Nat) × Nat :=
+  if c then bump ps k else (ps, 0)
+
 /-- one iteration of the option loop of `_parse_options`; `none` = loop finished -/
 def optionStep (buffer : ABuf) (mode : CoapMode) (st : OptState) : Py (Option OptState) := do
   if ¬ (st.cursor < buffer.length ∧ (buffer.slice st.cursor (st.cursor + 8)).content ≠ Gen.coap_PAYLOAD_MARKER_VALUE) then
     pure none
   else
     let ob := buffer.from_ st.cursor
-    let delta := ob.slice 0 4
-    let len := ob.slice 4 8
-    let lenInt := len.value
-    let d13 := delta.content == Gen.coap_OPTION_DELTA_EXTENDED_8BITS
-    let d14 := delta.content == Gen.coap_OPTION_DELTA_EXTENDED_16BITS
-    let l13 := len.content == Gen.coap_OPTION_DELTA_EXTENDED_8BITS
-    let l14 := len.content == Gen.coap_OPTION_DELTA_EXTENDED_16BITS
-    let mut ps := st.positions
-    let mut off := 8
-    let mut deltaExt := st.lastDeltaExt
-    let mut pDeltaExt := 0
-    if d13 then
-      deltaExt := some (ob.slice off (off + 8)); let r := bump ps Gen.CoAPF.OPTION_DELTA_EXTENDED; ps := r.1; pDeltaExt := r.2; off := off + 8
-    else if d14 then
-      deltaExt := some (ob.slice off (off + 16)); let r := bump ps Gen.CoAPF.OPTION_DELTA_EXTENDED; ps := r.1; pDeltaExt := r.2; off := off + 16
-    let mut lenExt := ABuf.empty .left
-    let mut lenExtInt := 0
-    let mut pLenExt := 0
-    if l13 then
-      lenExt := ob.slice off (off + 8); lenExtInt := lenExt.value; let r := bump ps Gen.CoAPF.OPTION_LENGTH_EXTENDED; ps := r.1; pLenExt := r.2; off := off + 8
-    else if l14 then
-      lenExt := ob.slice off (off + 16); lenExtInt := lenExt.value + 255; let r := bump ps Gen.CoAPF.OPTION_LENGTH_EXTENDED; ps := r.1; pLenExt := r.2; off := off + 16
-    let vlen := (lenInt + lenExtInt) * 8
-    let mut value := ABuf.empty .left
-    let mut pValue := 0
-    if vlen > 0 then
-      value := ob.slice off (off + vlen); let r := bump ps Gen.CoAPF.OPTION_VALUE; ps := r.1; pValue := r.2
-    off := off + vlen
-    if off > ob.length then throw .parserError
-    let cursor := st.cursor + off
+    let h := optionHeader ob
+    -- occurrence counters, in the order the loop body increments them
+    let (ps, pDeltaExt) := bumpIf (h.d13 || h.d14) st.positions Gen.CoAPF.OPTION_DELTA_EXTENDED
+    let (ps, pLenExt) := bumpIf (h.l13 || h.l14) ps Gen.CoAPF.OPTION_LENGTH_EXTENDED
+    let (ps, pValue) := bumpIf (h.vlen > 0) ps Gen.CoAPF.OPTION_VALUE
+    let deltaExt := if h.d13 || h.d14 then some h.deltaExt else st.lastDeltaExt
+    if h.off > ob.length then throw .parserError
+    let cursor := st.cursor + h.off
     match mode with
     | .syntactic =>
-      let r1 := bump ps Gen.CoAPF.OPTION_DELTA; ps := r1.1
-      let r2 := bump ps Gen.CoAPF.OPTION_LENGTH; ps := r2.1
-      let mut fs := st.fields ++ [⟨Gen.CoAPF.OPTION_DELTA, delta, r1.2⟩, ⟨Gen.CoAPF.OPTION_LENGTH, len, r2.2⟩]
-      if d13 ∨ d14 then fs := fs ++ [⟨Gen.CoAPF.OPTION_DELTA_EXTENDED, deltaExt.getD (ABuf.empty .left), pDeltaExt⟩]
-      if l13 ∨ l14 then fs := fs ++ [⟨Gen.CoAPF.OPTION_LENGTH_EXTENDED, lenExt, pLenExt⟩]
-      if vlen > 0 then fs := fs ++ [⟨Gen.CoAPF.OPTION_VALUE, value, pValue⟩]
-      pure (some { st with cursor := cursor, fields := fs, positions := ps, lastDeltaExt := deltaExt })
+      let r1 := bump ps Gen.CoAPF.OPTION_DELTA
+      let r2 := bump r1.1 Gen.CoAPF.OPTION_LENGTH
+      let fs := [⟨Gen.CoAPF.OPTION_DELTA, h.delta, r1.2⟩, ⟨Gen.CoAPF.OPTION_LENGTH, h.len, r2.2⟩]
+        ++ (if h.d13 || h.d14 then [⟨Gen.CoAPF.OPTION_DELTA_EXTENDED, h.deltaExt, pDeltaExt⟩] else [])
+        ++ (if h.l13 || h.l14 then [⟨Gen.CoAPF.OPTION_LENGTH_EXTENDED, h.lenExt, pLenExt⟩] else [])
+        ++ (if h.vlen > 0 then [⟨Gen.CoAPF.OPTION_VALUE, h.value, pValue⟩] else [])
+      pure (some { st with cursor := cursor, fields := st.fields ++ fs, positions := r2.1, lastDeltaExt := deltaExt })
     | .semantic =>
-      let di := delta.value
+      let di := h.delta.value
       let index ← if di < 13 then pure (st.optionIndex + di)
         else match deltaExt with
           | some de => pure (st.optionIndex + de.value + (if di = 13 then 13 else 269))
@@ -104,7 +119,7 @@ def optionStep (buffer : ABuf) (mode : CoapMode) (st : OptState) : Py (Option Op
         | some (_, name) => name
         | none => Gen.coapUnknownPrefix ++ "(" ++ natToString index ++ ")"
       let r := bump ps fid
-      pure (some { cursor := cursor, fields := st.fields ++ [⟨fid, value, r.2⟩], positions := r.1,
+      pure (some { cursor := cursor, fields := st.fields ++ [⟨fid, h.value, r.2⟩], positions := r.1,
                    optionIndex := index, lastDeltaExt := deltaExt })
 
 def optionLoop (buffer : ABuf) (mode : CoapMode) : Nat → OptState → Py OptState
@@ -259,18 +274,22 @@ def sctpChunkValue (fuel : Nat) (typeNo : Nat) (cv : ABuf) : Py (List Field) := 
   else if typeNo = chunkTypeNo "COOKIE_ECHO" then pure [⟨Gen.SCTPF.CHUNK_COOKIE_ECHO_COOKIE, cv, 0⟩]
   else pure [⟨Gen.SCTPF.CHUNK_VALUE, cv, 0⟩]
 
+/-- the chunk header fields followed by the fields of the chunk value (`clv` = announced chunk length in bits, ≥ 32) -/
+def sctpChunkBody (fuel : Nat) (b : ABuf) (hdr : List Field) (clv : Nat) : Py (List Field) := do
+  let cvl := clv - 32
+  if cvl > 0 then
+    let cv := b.slice 32 (32 + cvl)
+    let cf ← sctpChunkValue fuel (fieldValue hdr Gen.SCTPF.CHUNK_TYPE).value cv
+    if sumFieldBits cf ≠ cv.length then throw .parserError
+    pure (hdr ++ cf)
+  else pure hdr
+
 /-- `_parse_chunk`: (fields, bits consumed) -/
 def sctpChunk (fuel : Nat) (b : ABuf) : Py (List Field × Nat) := do
   let hdr := parseFixed Gen.sctpChunkHeaderLayout b
   let clv := (fieldValue hdr Gen.SCTPF.CHUNK_LENGTH).value * 8
   if b.length < 32 ∨ clv < 32 then throw .parserError
-  let cvl := clv - 32
-  let fs ← if cvl > 0 then do
-      let cv := b.slice 32 (32 + cvl)
-      let cf ← sctpChunkValue fuel (fieldValue hdr Gen.SCTPF.CHUNK_TYPE).value cv
-      if sumFieldBits cf ≠ cv.length then throw .parserError
-      pure (hdr ++ cf)
-    else pure hdr
+  let fs ← sctpChunkBody fuel b hdr clv
   let pad := (32 - clv % 32) % 32
   let cp := b.slice clv (clv + pad)
   let fs := if pad > 0 ∧ cp.length > 0 then fs ++ [⟨Gen.SCTPF.CHUNK_PADDING, cp, 0⟩] else fs
